@@ -197,6 +197,11 @@ func (ns *Namespace) UnmarshalYAML(value *yaml.Node) error {
 		nameNode := value.Content[i]
 		typeNode := value.Content[i+1]
 
+		if nameNode.Kind == yaml.AliasNode && nameNode.Alias != nil {
+			// '*anchor : ...': the key is whatever the anchor holds
+			nameNode = nameNode.Alias
+		}
+
 		if nameNode.Tag == "!!null" {
 			// a null key is not passed to DefinitionMeta.UnmarshalYAML
 			return parseError(nameNode, "the name of a type is required to be a string")
